@@ -1637,7 +1637,9 @@ impl Monitors {
                         ),
                     ),
                     Some(err) => {
-                        if !err.to_lowercase().contains("lost") && !err.to_lowercase().contains("crash") {
+                        // "explanatory": the wording is free, it must say something and must
+                        // not be the error of an ordinary task failure
+                        if err.trim().is_empty() || err.contains("(harness)") {
                             obs.alarm(
                                 "C07",
                                 step,
